@@ -54,6 +54,14 @@ FAMILIES = {
     "reasons": (gen_cfg("SEQ", caps="{100000}", kinds='{"resp"}', maxlen=0, cfgs="{0, 2}", L='"REASONS"'), 2, 4),
     "dict_q": (gen_cfg("SEQ", caps="{1, 100000}", kinds='{"req", "resp", "hdrs"}', phases='{"HLINE"}', cfgs="{0, 49, 94}", maxlen=20, L='"DICT"'), 4, 3),
     "prefaces": (gen_cfg("SEQ", caps="{1, 100000}", kinds='{"req", "resp"}', maxlen=0, cfgs="{0, 1, 2}", L='"PREFACES"'), 1, 4),
+    # punctuation that opens a nested syntax somewhere else (quoted strings, escapes, comments,
+    # parameter lists): every string of up to four such bytes inside every kind of field
+    "punct_q": (gen_cfg("EXT", caps="{100000}", alpha="{34, 92, 40, 41, 44, 61, 59, 39, 97, 13, 10}", L="4",
+                        phases='{"TARGET", "VALUE", "REASON", "NAME", "EXT", "IGN", "OWS", "SIZE"}', cfgs="{0, 49, 94}"), 8, 2),
+    # every pattern of blanks and `!` (the lowest visible byte) of up to 9 bytes at the end of a
+    # header value, then the end of the head: trailing-whitespace trims
+    "trim_q": (gen_cfg("EXT", caps="{100000}", alpha="{32, 33, 10}", L="11", kinds='{"hdrs", "resp"}',
+                       phases='{"VALUE"}', cfgs="{0, 8}"), 4, 3),
     # multi-byte look-alikes of white space / line ends / NUL from every abstract state
     "unispace": (gen_cfg("SEQ", caps="{1, 100000}", maxlen=100000, L='"UNISPACE"'), 8, 2),
     # long fields of 4-byte / 3-byte UTF-8 characters whose lead byte visits every block offset
